@@ -85,8 +85,59 @@ pub struct Opts {
 
 impl Opts {
     pub fn mine(&self, idx: usize) -> bool {
+        beat();
         idx >= self.start_cfg && idx % self.nshards == self.shard
     }
+}
+
+// ---- progress heart-beat (stall detection by the driver) -------------------------------------
+// Every execution bumps BEAT and records what is being executed; a plain OS thread writes that to
+// `<out>.progress` twice a second. The driver reports a HANG (a verdict: the code under test did
+// not return) only when the counter stands still for the stall limit; merely running out of the
+// overall wall budget is a machinery exit, never a verdict.
+pub static BEAT: std::sync::atomic::AtomicU64 = std::sync::atomic::AtomicU64::new(0);
+pub static NOW_CFG: std::sync::Mutex<String> = std::sync::Mutex::new(String::new());
+pub static NOW_CHOICES: std::sync::Mutex<(Vec<u8>, usize, u64)> = std::sync::Mutex::new((Vec::new(), 0, 0));
+pub type ProgressExtra = Box<dyn Fn() -> Value + Send + Sync>;
+pub static PROGRESS_EXTRA: std::sync::Mutex<Option<ProgressExtra>> = std::sync::Mutex::new(None);
+#[inline]
+pub fn beat() {
+    BEAT.fetch_add(1, std::sync::atomic::Ordering::Relaxed);
+}
+/// the configuration (JSON text, as a replay file would hold it) whose executions follow
+pub fn set_now_cfg(cfg: String) {
+    beat();
+    *NOW_CFG.lock().unwrap_or_else(|e| e.into_inner()) = cfg;
+}
+/// the choice prefix of the execution that starts now (later choices are the default 0)
+pub fn set_now_choices(prefix: &[u8], depth: usize, pass: u64) {
+    beat();
+    let mut g = NOW_CHOICES.lock().unwrap_or_else(|e| e.into_inner());
+    g.0.clear();
+    g.0.extend_from_slice(prefix);
+    g.1 = depth;
+    g.2 = pass;
+}
+pub fn start_heartbeat(out: &str) {
+    let path = format!("{}.progress", out);
+    std::thread::spawn(move || loop {
+        std::thread::sleep(std::time::Duration::from_millis(500));
+        let b = BEAT.load(std::sync::atomic::Ordering::Relaxed);
+        let cfg = NOW_CFG.try_lock().map(|g| g.clone()).unwrap_or_default();
+        let (mut ch, depth, pass) = NOW_CHOICES.try_lock().map(|g| g.clone()).unwrap_or_default();
+        while ch.len() < depth {
+            ch.push(0);
+        }
+        let extra = match PROGRESS_EXTRA.try_lock() {
+            Ok(g) => g.as_ref().map(|f| f()).unwrap_or(Value::Null),
+            Err(_) => Value::Null,
+        };
+        let j = json!({"beat": b, "config": cfg, "choices": ch, "pass": pass, "extra": extra});
+        let tmp = format!("{}.tmp", path);
+        if std::fs::write(&tmp, j.to_string()).is_ok() {
+            let _ = std::fs::rename(&tmp, &path);
+        }
+    });
 }
 
 pub fn panic_msg(e: Box<dyn std::any::Any + Send>) -> String {
